@@ -44,6 +44,10 @@ static void frame_check(const uint8_t* b, int n)
 /* ---- model-free oracle C15 (primary side): FCB of successive FCV frames per destination ---- */
 static int fcb_fail = 0; static char fcb_info[700];
 static uint8_t last_fcv_frame[70000][300]; static int last_fcv_len[70000]; static int reset_acked[70000]; static int have_last[70000];
+/* the oracle abstains for the rest of the episode once the application handed over user data that does not fit a frame
+ * (1 + address + data > 255 octets): the library accepts it, never writes it, but counts it as sent - outside the
+ * property's domain (11.5) */
+static int fcb_blind = 0; static long n_unframeable = 0;
 static int dest_of(const uint8_t* b, int n) { int aL = llp.addressLength; const uint8_t* a = (b[0] == 0x10) ? b + 2 : b + 5; (void) n; return aL == 0 ? 0 : aL == 1 ? a[0] : a[0] + 256 * a[1]; }
 static void fcb_note(const char* why, const uint8_t* b, int n) { if (!fcb_fail) { char h[600]; hexs(h, b, n > 280 ? 280 : n); snprintf(fcb_info, sizeof fcb_info, "at ops-file offset %ld wrote %s: %s", (long) ftell(ops), h, why); } fcb_fail++; }
 static void fcb_check(const uint8_t* b, int n)
@@ -51,6 +55,7 @@ static void fcb_check(const uint8_t* b, int n)
     if (n < 4 || (b[0] != 0x10 && b[0] != 0x68)) return;
     uint8_t c = (b[0] == 0x10) ? b[1] : b[4];
     if (!(c & 0x40)) return;                    /* only frames of a primary */
+    if (fcb_blind) return;
     int d = dest_of(b, n); if (d < 0 || d >= 70000) return;
     int fc = c & 0x0f;
     if (fc == 0) { reset_acked[d] = 2; have_last[d] = 0; return; }      /* reset sent: next FCV frame must carry FCB=1 once it is acknowledged */
@@ -122,7 +127,7 @@ static void destroy_all(void)
     if (U) { LinkLayerSecondaryUnbalanced_destroy(U); U = NULL; } if (B) { LinkLayerBalanced_destroy(B); B = NULL; }
     if (P) { LinkLayerPrimaryUnbalanced_destroy(P); P = NULL; }
     if (trx) { SerialTransceiverFT12_destroy(trx); trx = NULL; }
-    memset(&sim_serial[0], 0, sizeof sim_serial[0]); c1.cnt = c2.cnt = outq.cnt = 0; accept_rx = true; memset(have_last, 0, sizeof have_last); memset(reset_acked, 0, sizeof reset_acked); prev_fcv_fcb = -1; prev_valid = 0;
+    memset(&sim_serial[0], 0, sizeof sim_serial[0]); c1.cnt = c2.cnt = outq.cnt = 0; accept_rx = true; memset(have_last, 0, sizeof have_last); memset(reset_acked, 0, sizeof reset_acked); fcb_blind = 0; prev_fcv_fcb = -1; prev_valid = 0;
 }
 static void flush(const char* sum) { fprintf(impl, "%s%s\n", loglen ? logbuf : "-", sum); loglen = 0; logbuf[0] = 0; }
 static void feed(const uint8_t* b, int n) { SimSerial* s = &sim_serial[0]; if (s->in_len + n < SIM_BUF) { memcpy(s->in + s->in_len, b, n); s->in_len += n; } }
@@ -178,7 +183,7 @@ static void b_new(int aL, int tAck, int tRep, int single, int addr, int other, i
     B->primaryLinkLayer.lastSendTime = 0; B->primaryLinkLayer.originalSendTime = 0; B->primaryLinkLayer.lastReceivedMsg = 0;   /* not initialised by the library; never read before written except lastReceivedMsg */
     fprintf(impl, "ok\n");
 }
-static void b_out(const uint8_t* d, int n) { static char h[600]; hexs(h, d, n); fprintf(ops, "b.out %s\n", h); fflush(ops); q_push(&outq, d, n); fprintf(impl, "ok\n"); }
+static void b_out(const uint8_t* d, int n) { static char h[600]; hexs(h, d, n); if (1 + llp.addressLength + n > 255) { fcb_blind = 1; n_unframeable++; } fprintf(ops, "b.out %s\n", h); fflush(ops); q_push(&outq, d, n); fprintf(impl, "ok\n"); }
 static void b_accept(int v) { fprintf(ops, "b.accept %d\n", v); fflush(ops); accept_rx = v; fprintf(impl, "ok\n"); }
 static void b_test(void) { fprintf(ops, "b.test\n"); fflush(ops); LinkLayerBalanced_sendLinkLayerTestFunction(B); fprintf(impl, "ok\n"); }
 static void b_run(uint64_t now, const uint8_t* b, int n, int valid)
@@ -203,6 +208,7 @@ static void p_add(int a) { fprintf(ops, "p.add %d\n", a); fflush(ops); bool isne
 static void p_send(int a, const uint8_t* d, int n, int noreply)
 {
     static char h[600]; hexs(h, d, n); fprintf(ops, "%s %d %s\n", noreply ? "p.noreply" : "p.send", a, h); fflush(ops);
+    if (1 + llp.addressLength + n > 255) { fcb_blind = 1; n_unframeable++; }
     struct sBufferFrame bf; uint8_t tmp[256]; BufferFrame_initialize(&bf, tmp, 0); Frame_appendBytes((Frame) &bf, d, n);
     bool r = noreply ? LinkLayerPrimaryUnbalanced_sendNoReply(P, a, &bf) : LinkLayerPrimaryUnbalanced_sendConfirmed(P, a, &bf);
     fprintf(impl, "%d\n", r ? 1 : 0);
